@@ -55,3 +55,75 @@ package shape
 //@   requires abs(alt) <= 33554432.0 && (alt == 0.0 || abs(alt) >= 1e-290)
 //@   ensures [floor] r0 == vid(vZoom, floor(alt * rpow2(vZoom) / rpow2(25)))
 //@ end
+
+//@ -- C01: horizontal indices.  x = floor(2^h (lon+180)/360) with lon = 180 folded to -180.
+//@ func getHorizontalTileIdOnPoint
+//@   pure
+//@   props C01 C09 C15
+//@   nooverflow
+//@   ensures [shape] nf(r0) == 3 && fld(r0, 0) == num(hZoom)
+//@ end
+//@ -- ideal reals: the formulas of the property (detects any change of the formula; says nothing about rounding)
+//@ case getHorizontalTileIdOnPoint ideal-formula
+//@   float ideal
+//@   split hZoom 0..35
+//@   requires 0.0 - 180.0 <= lon && lon <= 180.0 && abs(lat) <= 85.0511287798
+//@   -- trusted Mercator bound: 85.0511287798 is the latitude where |asinh(tan lat)| reaches pi
+//@   requires abs(asinh(tan(lat * deg2rad))) <= pi
+//@   ensures [x] val(fld(r0, 1)) == floor(rpow2(hZoom) * (ite(lon == 180.0, 0.0 - 180.0, lon) + 180.0) / 360.0)
+//@   ensures [ranges] 0 <= val(fld(r0, 1)) && val(fld(r0, 1)) <= pow2(hZoom) && 0 <= val(fld(r0, 2)) && val(fld(r0, 2)) <= pow2(hZoom)
+//@   ensures [y] val(fld(r0, 2)) == floor(rpow2(hZoom) * (1.0 - asinh(tan(lat * deg2rad)) / pi) / 2.0)
+//@ end
+
+//@ -- list level: zoom / nil errors, same length and order, each element = horizontal tile "/" vertical tile
+//@ func GetExtendedSpatialIdsOnPoints
+//@   props C01 C15
+//@   nooverflow
+//@   ensures [err-zoom] !(0 <= hZoom && hZoom <= 35 && 0 <= vZoom && vZoom <= 35) ==> r1 != nil && len(r0) == 0
+//@   ensures [err-nil] in(nil, pointList) ==> r1 != nil && len(r0) == 0
+//@   ensures [ok] (0 <= hZoom && hZoom <= 35 && 0 <= vZoom && vZoom <= 35) && !in(nil, pointList) ==> r1 == nil && len(r0) == len(pointList) && (forall k :: 0 <= k && k < len(pointList) ==> r0[k] == join(getHorizontalTileIdOnPoint(pointList[k].lon, pointList[k].lat, hZoom), getVerticalTileIdOnAltitude(pointList[k].alt, vZoom)))
+//@   loop 0 invariant len(spatialIds) == $i && (forall k :: 0 <= k && k < $i ==> spatialIds[k] == join(getHorizontalTileIdOnPoint(pointList[k].lon, pointList[k].lat, hZoom), getVerticalTileIdOnAltitude(pointList[k].alt, vZoom)))
+//@ end
+
+//@ func GetSpatialIdsOnPoints
+//@   props C01 C15
+//@   nooverflow
+//@   ensures [err] !(0 <= zoom && zoom <= 35) || in(nil, pointList) ==> r1 != nil && len(r0) == 0
+//@   ensures [ok] (0 <= zoom && zoom <= 35) && !in(nil, pointList) ==> r1 == nil && len(r0) == len(pointList) && (forall k :: 0 <= k && k < len(pointList) ==> r0[k] == str4(num(zoom), fld(getVerticalTileIdOnAltitude(pointList[k].alt, zoom), 1), fld(getHorizontalTileIdOnPoint(pointList[k].lon, pointList[k].lat, zoom), 1), fld(getHorizontalTileIdOnPoint(pointList[k].lon, pointList[k].lat, zoom), 2)))
+//@ end
+
+//@ -- C15 / C02 sweep: ID -> geometry.  No panic for any string, errors for malformed IDs, zooms outside 0..35, unknown options.
+//@ func getExtendedSpatialIdAttrs
+//@   props C15 C02
+//@   ensures [ok-iff-wellformed] r1 == nil <==> isext(extendedSpatialId)
+//@   ensures [values] r1 == nil ==> len(r0) == 5 && r0[0] == val(fld(extendedSpatialId, 0)) && r0[1] == val(fld(extendedSpatialId, 1)) && r0[2] == val(fld(extendedSpatialId, 2)) && r0[3] == val(fld(extendedSpatialId, 3)) && r0[4] == val(fld(extendedSpatialId, 4))
+//@   loop 0 invariant len(result) == $i && $i <= 5 && (forall k :: 0 <= k && k < $i ==> isnum(fld(extendedSpatialId, k)) && result[k] == val(fld(extendedSpatialId, k)))
+//@ end
+
+//@ func getVertexOnVoxelOffset
+//@   props C15 C02
+//@   nooverflow
+//@   ensures len(r0) == 8
+//@   ensures forall k :: 0 <= k && k < 8 ==> r0[k] != nil
+//@ end
+
+//@ func GetPointOnExtendedSpatialId
+//@   props C15 C02
+//@   nooverflow
+//@   ensures [malformed] !isext(extendedSpatialId) ==> r1 != nil && len(r0) == 0
+//@   ensures [zoom] isext(extendedSpatialId) && !(0 <= val(fld(extendedSpatialId, 0)) && val(fld(extendedSpatialId, 0)) <= 35 && 0 <= val(fld(extendedSpatialId, 3)) && val(fld(extendedSpatialId, 3)) <= 35) ==> r1 != nil && len(r0) == 0
+//@   ensures [option] option != 0 && option != 1 ==> r1 != nil && len(r0) == 0
+//@ end
+
+//@ func GetPointOnSpatialId
+//@   props C15 C02
+//@   nooverflow
+//@   ensures [arity] nf(spatialId) != 4 ==> r1 != nil && len(r0) == 0
+//@ end
+
+//@ func getCenterPointOnVoxelOffset
+//@   props C15 C02
+//@   nooverflow
+//@   loop 0 unroll 8
+//@   ensures r0 != nil
+//@ end
